@@ -44,7 +44,18 @@ def class_F10(rules):
     return any(fml_has(f, ('final', 'finally')) for f in head_formulas(rules))
 
 
-CLASSES = {'F9': class_F9, 'F10': class_F10}
+def class_F14(rules):
+    """a head formula over >= 2 distinct atoms in a rule of the final part or with &final in its body: the auxiliary atom of the
+    rule then depends on the external __final(t), and clasp's equivalence preprocessing loses a stable model of the
+    disjunctive domain rule + clause rules (reproduced with the raw backend, clingo 5.8.2; correct with --eq=0)"""
+    for r in rules:
+        if r['head'][0] == 'tel' and len(fml_atoms(r['head'][1], set())) >= 2:
+            if r['part'] == 'final' or any(l[1][0] == 'kw' and l[1][1] == 'final' for l in r['body']):
+                return True
+    return False
+
+
+CLASSES = {'F9': class_F9, 'F10': class_F10, 'F14': class_F14}
 
 
 def open_findings(prop=None):
